@@ -7,6 +7,16 @@ BASE = ("cd /repo && /venv/bin/python -m pytest -ra -q -p no:cacheprovider --tim
         "--continue-on-collection-errors")
 
 CLAIMED = {
+    'C02': dict(
+        text="Every token of every Layout.tla document is assigned replacement values/raw texts (per-kind classes: same width, wider, narrower, adding/removing line breaks, non-canonical spellings) singly and in sequences; each assignment is one recorded event with the full observation battery, and TLC validates every trace against TokenSeqTrace.tla: row identity/order and length unchanged, every other token keeps its text, the assigned token carries exactly the assigned text, refused assignments are stutters.",
+        note="Documents of <= 3-4 lines (<= 48 tokens), a few replacement representatives per token kind, load factor rotated over 2,3,4,1000.",
+        technique="TLC trace validation (TokenSeqTrace.tla) of recorded token assignments on Layout.tla documents",
+        ref="§6 C02"),
+    'C09': dict(
+        text="CostSpec.tla holds the record-of-optionals model and an implementation-shaped transcription of the three cost setters over concrete syntax forms; TLC enumerates every assignment sequence (depth 2-3) from every initial form (both brace kinds, every main component shape incl. split forms, date/label/merge layouts) and each is replayed on a real posting: rejection class, read-back of all six properties, read-back after print/re-parse, text outside the cost, tree. TxnStrings / generic value properties are added by their modules.",
+        note="Two abstract values per number/currency/date/label (one of the numbers is zero). Deviations of the transcribed algorithm from the record model are listed in the evidence; 4 failing edges are recorded as known findings.",
+        technique="TLA+ CostSpec refinement edges (TLC) replayed on the real cost setters",
+        ref="§2.5, §6 C09"),
     'C01': dict(
         text="TLC enumerates every document of Layout.tla (all sequences of structural line classes up to N lines, single-line deviations, LF/CRLF, final line end) together with the grammar's nesting automaton; each is rendered and parsed by the real parser in both attribution modes and print/round-trip, store concatenation and every sub-model's slice are compared with the input; PostLex.tla (mark insertion state machine, invariants checked by TLC) is replayed into the real PostLex class.",
         note="Small scope: <= 4 (quick) / 5 (thorough) lines over 12 line classes with rotating concrete directives; characters inside lexemes are representatives (the regex lexer is exercised, not modelled).",
@@ -45,7 +55,7 @@ CLAIMED = {
     'C08': dict(
         text="Same machinery as C07 with token sizes (newline / column classes) and TokenStore.update as first-class actions: TLC checks the cached block size and last-newline index equal the fold over tokens in every reachable state; behaviours are replayed on the real store comparing get_position/get_index of every token with the (line, column) computed from the concatenated text.",
         note="Exhaustive within constants (load factors 2-3, <= 7 tokens, 4 size classes, depth 2-3); traces on larger stores. Position oracle is computed from the actual token texts.",
-        technique="TLA+ BlockStore size-cache invariants (TLC) + behaviour replay + TLC trace validation",
+        technique="TLA+ BlockStore size-cache invariants (TLC) + behaviour replay + TLC trace validation (store and document level)",
         ref="§2.2, §6 C08"),
 }
 PENDING_REASON = "check not built yet in this round (planned per DESIGN.md §6); no claim is made"
